@@ -11,6 +11,7 @@ import (
 	"net"
 	"time"
 
+	"github.com/pion/interceptor"
 	"github.com/pion/sdp/v3"
 	"github.com/pion/srtp/v3"
 )
@@ -207,4 +208,35 @@ func VerifProbeChoice(pc *PeerConnection, ssrc SSRC) (int, string) {
 	}
 
 	return -1, ""
+}
+
+// VerifReceiverReadRTP builds a started RTPReceiver with one track per element of bound — element i has its
+// RTP reader bound iff bound[i] — and calls readRTP for track idx (what TrackRemote.Read / peek do). It
+// returns the index of the track whose reader was used, or -1 with the error.
+func VerifReceiverReadRTP(bound []bool, idx int) (int, error) {
+	received := make(chan any)
+	close(received)
+	r := &RTPReceiver{
+		kind: RTPCodecTypeVideo, received: received, closedChan: make(chan any), log: verifLog(),
+	}
+	for i := range bound {
+		i := i
+		ts := trackStreams{track: newTrackRemote(RTPCodecTypeVideo, SSRC(1000+i), 0, "", r)} //nolint:gosec
+		if bound[i] {
+			ts.rtpInterceptor = interceptor.RTPReaderFunc(
+				func([]byte, interceptor.Attributes) (int, interceptor.Attributes, error) { return i + 1, nil, nil },
+			)
+		}
+		r.tracks = append(r.tracks, ts)
+	}
+	reader := newTrackRemote(RTPCodecTypeVideo, 999, 0, "", r) // not a track of this receiver
+	if idx >= 0 && idx < len(r.tracks) {
+		reader = r.tracks[idx].track
+	}
+	n, _, err := r.readRTP(make([]byte, 8), reader)
+	if err != nil {
+		return -1, err
+	}
+
+	return n - 1, nil
 }
